@@ -6,7 +6,7 @@
    No axioms: every Print Assumptions below must say "Closed under the global context". *)
 From Coq Require Import ZArith NArith List Bool.
 From GV Require Import Pattern.Common Pattern.Build Pattern.Machine Pattern.Spec Pattern.Drivers
-  Pattern.Proofs Pattern.Equiv Pattern.Refuted.
+  Pattern.Top Pattern.Proofs Pattern.BuildProofs Pattern.Equiv Pattern.Full Pattern.Refuted.
 Import ListNotations.
 Open Scope Z_scope.
 
@@ -68,44 +68,96 @@ Theorem C15_spec_lazy_last_minimal :
 Proof. exact spec_lazy_last_minimal. Qed.
 Print Assumptions C15_spec_lazy_last_minimal.
 
-(* ---- refuted on the code as it stands (faithful IM; witnesses replayed on Go) *)
+(* ---- machine_equiv_spec, full (round 2): every item kind, capture values, find() loop.
 
-(* no_panic of the machine is false: %1 naming a position capture slices s[start:-1] *)
-Theorem C15_machine_no_panic_refuted :
-  exists items ea s st fuel, fst (run items ea s fuel 0 0 st) = OPanic.
-Proof. exact machine_no_panic_refuted. Qed.
-Print Assumptions C15_machine_no_panic_refuted.
+   Hypothesis: the compiled item list is well formed (Top.wfb: capture indices
+   in 0..9, each capture index opened once, a back-reference names a capture
+   opened before it and not closed after it).  The check evaluates
+   Top.wf_pattern on every pattern the builder accepts (all true). *)
 
-Theorem C15_backref_position_capture_panics :
-  exists ptn s, exists p, build ptn = Ok p /\ a_panicked (api false p 1000 s 0 0) = true.
-Proof. exact backref_position_capture_panics. Qed.
-Print Assumptions C15_backref_position_capture_panics.
+(* matchToEnd at one start position: the trackback machine (budget 0, any
+   initial capture array) halts for all large fuel, never panics, matches
+   ending at e with the captures of Spec.M on every opened slot exactly when
+   Spec.M matches, and reports no match exactly when Spec.M fails. *)
+Theorem C15_machine_equiv_spec_at :
+  forall items ea s, wfb [] items = true -> forall init c0, 0 <= init <= slen s ->
+  match M ea s items init caps0 with
+  | Some (e, cS') =>
+    exists c', Equiv.halts items ea s (start_state init c0) (OMatch e c') /\ caps_eq_on items c' cS'
+  | None => exists c', Equiv.halts items ea s (start_state init c0) (ONoMatch c')
+  end.
+Proof. exact machine_equiv_spec_at. Qed.
+Print Assumptions C15_machine_equiv_spec_at.
 
-(* gsub of matching.go differs from the manual: anchor ignored, count, empty result *)
-Theorem C15_gsub_ignores_anchor_refuted :
-  exists ptn s repl p, build ptn = Ok p /\
-    fst (fst (gsub_im p 1000 s 0 repl (-1))) = DVals [CStr [120; 120; 120]; CPos 3] /\
-    gsub_s p s repl (-1) = DVals [CStr [120; 97; 97]; CPos 1].
-Proof. exact gsub_ignores_anchor_refuted. Qed.
-Print Assumptions C15_gsub_ignores_anchor_refuted.
+(* find(): the loop over start positions yields the leftmost match of the
+   specification (Spec.find_at, see C15_spec_find_leftmost), same span, same captures. *)
+Theorem C15_machine_equiv_spec_find :
+  forall items ea s, wfb [] items = true -> forall n init c0,
+  0 <= init -> init + Z.of_nat n <= slen s + 1 ->
+  exists N, forall f, (N <= f)%nat -> forall u,
+    match find_at ea s items n init with
+    | Some (st, e, cS') =>
+      exists c' u', findLoop items ea s n f 0 u init c0 = (OMatch e c', u', st) /\ caps_eq_on items c' cS'
+    | None =>
+      exists c' u', findLoop items ea s n f 0 u init c0 = (ONoMatch c', u', init + Z.of_nat n)
+    end.
+Proof. exact machine_equiv_spec_find. Qed.
+Print Assumptions C15_machine_equiv_spec_find.
 
+(* Pattern.Match / Pattern.MatchFromStart (incl. anchor handling and the
+   recover()) return exactly the capture list of the specification, charge
+   nothing when there is no budget, and never panic (no_panic of the machine). *)
+Theorem C15_api_equiv_spec :
+  forall fromStart p s init, wf_pattern p = true -> 0 <= init <= slen s ->
+  exists N, forall f, (N <= f)%nat ->
+    api fromStart p f s init 0 =
+    mkApi (match spec_find_list p (fromStart && p_sanchor p) s init with
+           | Some l => MCaps l | None => MNil end) 0 false.
+Proof. exact api_equiv_spec. Qed.
+Print Assumptions C15_api_equiv_spec.
+
+(* the hypotheses are satisfiable by an item list using every item kind *)
+Theorem C15_wf_example :
+  wf_pattern (mkPattern [ICapStart 1; ISingle Star 5%N; ICapStart 2; ISingle Once 7%N; ICapEnd 2;
+                         ICapEnd 1; IBackref 2; IFrontier 9%N; IBalanced 120 121; ICapStart 3;
+                         ISingle Lazy 3%N; ISingle Plus 3%N; ISingle Opt 3%N] 3 true true) = true.
+Proof. reflexivity. Qed.
+Print Assumptions C15_wf_example.
+
+(* with a budget B > 0 the machine either stops with the budget panic — and
+   then at least B ticks were charged — or behaves exactly as without budget *)
+Theorem C15_run_budget :
+  forall items ea s f B u st,
+  fst (run items ea s f B u st) = OBudget \/ run items ea s f B u st = run items ea s f 0 u st.
+Proof. exact run_budget. Qed.
+Print Assumptions C15_run_budget.
+
+Theorem C15_run_budget_kill :
+  forall items ea s f B u st, 0 < B -> u < B ->
+  fst (run items ea s f B u st) = OBudget -> B <= snd (run items ea s f B u st).
+Proof. exact run_budget_kill. Qed.
+Print Assumptions C15_run_budget_kill.
+
+(* start position beyond the end of the subject: no match, no panic (was
+   C15_match_beyond_end_refuted before the repair of findFromStart) *)
+Theorem C15_api_beyond_end :
+  forall fromStart p f s init B, slen s < init ->
+  a_res (api fromStart p f s init B) = MNil /\ a_panicked (api fromStart p f s init B) = false.
+Proof. exact api_beyond_end. Qed.
+Print Assumptions C15_api_beyond_end.
+
+(* the pattern compiler (model of builder.go) never raises a Go index panic,
+   for every byte string given as a pattern *)
+Theorem C15_build_no_panic : forall ptn, build ptn <> BPanic.
+Proof. exact build_no_panic. Qed.
+Print Assumptions C15_build_no_panic.
+
+(* ---- refuted on the code as it stands (faithful IM; witness replayed on Go) *)
+
+(* gsub of matching.go counts an empty match that it skips (pinned by the suite) *)
 Theorem C15_gsub_count_refuted :
   exists ptn s repl p, build ptn = Ok p /\
-    fst (fst (gsub_im p 1000 s 0 repl (-1))) = DVals [CStr [120]; CPos 2] /\
+    fst (gsub_im p 1000 s 0 repl (-1)) = DVals [CStr [120]; CPos 2] /\
     gsub_s p s repl (-1) = DVals [CStr [120]; CPos 1].
 Proof. exact gsub_count_refuted. Qed.
 Print Assumptions C15_gsub_count_refuted.
-
-Theorem C15_gsub_empty_result_refuted :
-  exists ptn s p, build ptn = Ok p /\
-    fst (fst (gsub_im p 1000 s 0 [] (-1))) = DVals [CStr s; CPos 1] /\
-    gsub_s p s [] (-1) = DVals [CStr []; CPos 1].
-Proof. exact gsub_empty_result_refuted. Qed.
-Print Assumptions C15_gsub_empty_result_refuted.
-
-(* string.match with init beyond the end and a ^ pattern: Go slice panic, manual nil *)
-Theorem C15_match_beyond_end_refuted :
-  exists ptn s p, build ptn = Ok p /\
-    fst (match_im p 1000 s 0 4) = DPanic /\ match_s p s 4 = DNil.
-Proof. exact match_beyond_end_refuted. Qed.
-Print Assumptions C15_match_beyond_end_refuted.
